@@ -439,9 +439,19 @@ bool varintBitmapContains(const varintBitmap *vb, uint16_t value) {
     return false;
 }
 
+/* Add 'value' to a result set under construction.
+ * Returns false only if the value could not be stored (out of memory). */
+static bool resultAdd_(varintBitmap *result, uint16_t value) {
+    return varintBitmapAdd(result, value) ||
+           varintBitmapContains(result, value);
+}
+
 varintBitmap *varintBitmapAnd(const varintBitmap *vb1,
                               const varintBitmap *vb2) {
     varintBitmap *result = varintBitmapCreate();
+    if (!result) {
+        return NULL; /* Out of memory */
+    }
 
     /* Optimize: AND with array containers */
     if (vb1->type == VARINT_BITMAP_ARRAY && vb2->type == VARINT_BITMAP_ARRAY) {
@@ -450,9 +460,11 @@ varintBitmap *varintBitmapAnd(const varintBitmap *vb1,
         while (i < vb1->cardinality && j < vb2->cardinality) {
             uint16_t v1 = vb1->container.array.values[i];
             uint16_t v2 = vb2->container.array.values[j];
-
             if (v1 == v2) {
-                varintBitmapAdd(result, v1);
+                if (!resultAdd_(result, v1)) {
+                    varintBitmapFree(result);
+                    return NULL; /* Out of memory */
+                }
                 i++;
                 j++;
             } else if (v1 < v2) {
@@ -472,7 +484,10 @@ varintBitmap *varintBitmapAnd(const varintBitmap *vb1,
     varintBitmapIterator it = varintBitmapCreateIterator(smaller);
     while (varintBitmapIteratorNext(&it)) {
         if (varintBitmapContains(other, it.currentValue)) {
-            varintBitmapAdd(result, it.currentValue);
+            if (!resultAdd_(result, it.currentValue)) {
+                varintBitmapFree(result);
+                return NULL; /* Out of memory */
+            }
         }
     }
 
@@ -481,10 +496,16 @@ varintBitmap *varintBitmapAnd(const varintBitmap *vb1,
 
 varintBitmap *varintBitmapOr(const varintBitmap *vb1, const varintBitmap *vb2) {
     varintBitmap *result = varintBitmapClone(vb1);
+    if (!result) {
+        return NULL; /* Out of memory */
+    }
 
     varintBitmapIterator it = varintBitmapCreateIterator(vb2);
     while (varintBitmapIteratorNext(&it)) {
-        varintBitmapAdd(result, it.currentValue);
+        if (!resultAdd_(result, it.currentValue)) {
+            varintBitmapFree(result);
+            return NULL; /* Out of memory */
+        }
     }
 
     return result;
@@ -493,12 +514,18 @@ varintBitmap *varintBitmapOr(const varintBitmap *vb1, const varintBitmap *vb2) {
 varintBitmap *varintBitmapXor(const varintBitmap *vb1,
                               const varintBitmap *vb2) {
     varintBitmap *result = varintBitmapCreate();
+    if (!result) {
+        return NULL; /* Out of memory */
+    }
 
     /* Add elements from vb1 that are not in vb2 */
     varintBitmapIterator it1 = varintBitmapCreateIterator(vb1);
     while (varintBitmapIteratorNext(&it1)) {
         if (!varintBitmapContains(vb2, it1.currentValue)) {
-            varintBitmapAdd(result, it1.currentValue);
+            if (!resultAdd_(result, it1.currentValue)) {
+                varintBitmapFree(result);
+                return NULL; /* Out of memory */
+            }
         }
     }
 
@@ -506,7 +533,10 @@ varintBitmap *varintBitmapXor(const varintBitmap *vb1,
     varintBitmapIterator it2 = varintBitmapCreateIterator(vb2);
     while (varintBitmapIteratorNext(&it2)) {
         if (!varintBitmapContains(vb1, it2.currentValue)) {
-            varintBitmapAdd(result, it2.currentValue);
+            if (!resultAdd_(result, it2.currentValue)) {
+                varintBitmapFree(result);
+                return NULL; /* Out of memory */
+            }
         }
     }
 
@@ -516,11 +546,17 @@ varintBitmap *varintBitmapXor(const varintBitmap *vb1,
 varintBitmap *varintBitmapAndNot(const varintBitmap *vb1,
                                  const varintBitmap *vb2) {
     varintBitmap *result = varintBitmapCreate();
+    if (!result) {
+        return NULL; /* Out of memory */
+    }
 
     varintBitmapIterator it = varintBitmapCreateIterator(vb1);
     while (varintBitmapIteratorNext(&it)) {
         if (!varintBitmapContains(vb2, it.currentValue)) {
-            varintBitmapAdd(result, it.currentValue);
+            if (!resultAdd_(result, it.currentValue)) {
+                varintBitmapFree(result);
+                return NULL; /* Out of memory */
+            }
         }
     }
 
